@@ -208,6 +208,7 @@ func c05(c *Ctx) {
 	c05Log(c)
 	c05PrefixMap(c)
 	c05Accept(c)
+	idZeroRule(c, "C05.idzero", func(rel string) bool { return !strings.HasPrefix(rel, "keyset") && !strings.HasPrefix(rel, "proto/") && !strings.HasPrefix(rel, "internal/protoserialization") })
 }
 
 // canonEntry strips ToUnmonitoredEntry wrappers: the same keyset entry.
